@@ -453,6 +453,11 @@ func (db *DB) setEntry(data *kv.Entry) error {
 	if data == nil || len(data.Key) == 0 {
 		return utils.ErrEmptyKey
 	}
+	if len(data.Key) > maxKeySize {
+		// The memtable index stores key lengths in 16 bits: a longer key would be cut
+		// short and land under a different key.
+		return exceedsSize("Key", maxKeySize, data.Key)
+	}
 	if !data.CF.Valid() {
 		data.CF = kv.CFDefault
 	}
@@ -480,6 +485,9 @@ func (db *DB) SetVersionedEntry(cf kv.ColumnFamily, key []byte, version uint64, 
 	}
 	if len(key) == 0 {
 		return utils.ErrEmptyKey
+	}
+	if len(key) > maxKeySize {
+		return exceedsSize("Key", maxKeySize, key)
 	}
 	entry := kv.NewEntryWithCF(cf, kv.SafeCopy(nil, key), kv.SafeCopy(nil, value))
 	entry.Meta = meta
